@@ -38,6 +38,14 @@ CHECKS = {
             'Trusted: the 60-line renderer that encodes the stated precedence reading and the Fraction evaluator. Not '
             'demanded: rank of & against arithmetic, chained comparisons, ^. Trees with more than 5 operators are only '
             'covered by the deterministic chains.', 'DESIGN.md §5 C04'),
+    'C05': ('exhaustive enumeration of literal spellings, whitespace placements at every token boundary of a formula '
+            'corpus, the three separator styles and all 2^k blank-slot patterns, evaluated by the real parser; ' + K3,
+            'The lexer and the three copy-pasted sequence productions are exercised on every digit string / decimal / '
+            'percent / power literal of the bound, every short string over an adversarial 15-character alphabet, every '
+            'whitespace insertion point of ~150 (quick) / ~450 (thorough) formulas and every present/absent pattern of up '
+            'to 6/7 slots in all three separator styles, with a recording custom function as the observer.',
+            'Trusted: Python int()/Fraction as the meaning of a decimal spelling; the hand-written token corpus. One '
+            'known finding (string content ending in a backslash followed later by the same quote).', 'DESIGN.md §5 C05'),
 }
 
 NOT_YET = 'check not built yet in this session (see DESIGN.md §5 for the planned bounded-exhaustive check)'
